@@ -110,3 +110,26 @@ B("C06", "extra tie-breaker in the key", MD, "key=lambda t: (t.start, -t.end)", 
 N("C06", "De Morgan on the decoded test", MD, "if hit.value.lower() != hit.original.lower() or hit.children:", "if not (hit.value.lower() == hit.original.lower() and not hit.children):")
 N("C06", "return via if statement", MD, "        return stack[0] if stack else node\n", "        if stack:\n            return stack[0]\n        return node\n")
 N("C06", "self-match operands reordered", MD, "if hit.start == 0 and hit.value == node.value and hit.type == node.type:", "if node.type == hit.type and hit.value == node.value and 0 == hit.start:")
+
+# ------------------------------------------------------------------ C17
+B("C17", "boundary and -> or", KW, "        if (start == 0 or not data[start - 1 : start].isalnum()) and (\n            end == len(data) or not data[end : end + 1].isalnum()\n        ):", "        if (start == 0 or not data[start - 1 : start].isalnum()) or (\n            end == len(data) or not data[end : end + 1].isalnum()\n        ):", "R1-boundary")
+B("C17", "end == len(data) dropped", KW, "            end == len(data) or not data[end : end + 1].isalnum()\n", "            not data[end : end + 1].isalnum()\n", "R1-boundary")
+B("C17", "isalpha for isalnum", KW, "not data[start - 1 : start].isalnum()", "not data[start - 1 : start].isalpha()", "R1-boundary")
+B("C17", "left neighbour off by one", KW, "not data[start - 1 : start].isalnum()", "not data[start - 2 : start - 1].isalnum()", "R1-boundary")
+B("C17", "search on un-lowered data", KW, "for start in find_all(keyword.lower(), lower)", "for start in find_all(keyword.lower(), data)", "R2-lowering")
+B("C17", "keyword not lowered", KW, "for start in find_all(keyword.lower(), lower)", "for start in find_all(keyword, lower)", "R2-lowering")
+B("C17", "advance by one", KW, "start = data.find(keyword, start + len(keyword))", "start = data.find(keyword, start + 1)", "R3-advance")
+B("C17", "advance from end + 1", KW, "start = data.find(keyword, start + len(keyword))", "start = data.find(keyword, end + 1)", "R3-advance")
+B("C17", "value is the matched text", KW, "            label,\n            keyword,\n", "            label,\n            data[start : start + len(keyword)],\n", "R4-roles")
+B("C17", "value is lowered keyword", KW, "            label,\n            keyword,\n", "            label,\n            keyword.lower(),\n", "R4-roles")
+B("C17", "span end uses len(data)", KW, "            start + len(keyword),\n        )", "            start + len(data),\n        )", "R4-roles")
+B("C17", "mixed-case guard loses islower", KW, "if raw.isupper() or raw.islower():", "if raw.isupper():", "R5-mixedcase")
+B("C17", "mixed-case compares lowered data", KW, "is_mixed_case(keyword, data[start : start + len(keyword)])", "is_mixed_case(keyword, lower[start : start + len(keyword)])", "R5-mixedcase")
+B("C17", "empty keyword guard removed", KW, "    if not keyword:\n        return []\n", "", "R6-empty-keyword")
+B("C17", "first search from 1", KW, "    start = data.find(keyword)\n", "    start = data.find(keyword, 1)\n", "R3-advance")
+B("C17", "loop while start > 0", KW, "while start >= 0:", "while start > 0:", "R3-advance")
+N("C17", "guard via named booleans", KW, "        if (start == 0 or not data[start - 1 : start].isalnum()) and (\n            end == len(data) or not data[end : end + 1].isalnum()\n        ):", "        left_ok = start == 0 or not data[start - 1 : start].isalnum()\n        right_ok = end == len(data) or not data[end : end + 1].isalnum()\n        if left_ok and right_ok:")
+N("C17", "find with explicit 0", KW, "    start = data.find(keyword)\n", "    start = data.find(keyword, 0)\n")
+N("C17", "advance via end", KW, "start = data.find(keyword, start + len(keyword))", "start = data.find(keyword, end)")
+N("C17", "loop while start != -1 style", KW, "while start >= 0:", "while start > -1:")
+N("C17", "De Morgan boundary", KW, "        if (start == 0 or not data[start - 1 : start].isalnum()) and (\n            end == len(data) or not data[end : end + 1].isalnum()\n        ):", "        if not ((start != 0 and data[start - 1 : start].isalnum()) or (\n            end != len(data) and data[end : end + 1].isalnum()\n        )):")
